@@ -189,8 +189,12 @@ def run(ctx):
             bad = [s for s in sinks if not (s in ORDER_FREE or s == 'collect:set/map')]
             top = q.top(g.name)
             # the audited exception, wherever the code sits: the single-action table (HashMap<I, A>) frozen into a slice of (I, A)
-            single_table = bad == ['collect:sequence'] and re.fullmatch(r'std::collections::HashMap<I, A>', ty.replace('&mut ', '').replace('&', '').strip()) is not None and \
-                any(re.fullmatch(r'std::boxed::Box<\[\(I, A\)\]>', g.locals[x_['dest']['l']]['ty']) is not None for l_ in seen for _, k_, x_ in q.local_uses(g, l_)
+            ty0 = ty.replace('&mut ', '').replace('&', '').strip()
+            inner_ = ty0[len('std::collections::HashMap<'):-1] if ty0.startswith('std::collections::HashMap<') and ty0.endswith('>') else None
+            # (name type, action type) — whatever the two type parameters are called where the code sits — and nothing concrete
+            generic_ = inner_ is not None and not any(w_ in inner_ for w_ in ('usize', 'f64', 'bool', 'u64', 'std::')) and inner_.count(', ') >= 1
+            single_table = bad == ['collect:sequence'] and generic_ and \
+                any(g.locals[x_['dest']['l']]['ty'] == 'std::boxed::Box<[(%s)]>' % inner_ for l_ in seen for _, k_, x_ in q.local_uses(g, l_)
                     if k_ == 'arg' and short(x_['callee'].get('path') or x_['callee'].get('def') or '') == 'collect' and not x_['dest']['p'])
             if bad and (any(top.endswith(k) for k in E11_AUDITED) or single_table):
                 ctx.ok(rule, '%s:%s:%s' % (rule, top, short(p)), 'hash-order iteration ends in an order-insensitive sink (or is an audited exception)', g.where(bi), 'audited: %s' % list(E11_AUDITED.values())[0])
